@@ -535,7 +535,9 @@ class Oracle:
             start = r["loc"] - r["foff"]
             size = fmt_size(r["fmt"])
             # a field overwritten by a session emission after it was patched no longer holds the reference
-            later = [(a, b) for (j, a, b) in getattr(self, "overwrites", []) if j > c and a < start + size and start < b]
+            # (a bare/extern reference is patched the moment it is made, a label reference when its batch is committed)
+            since = r["i"] if r["k"] == "rx" else c
+            later = [(a, b) for (j, a, b) in getattr(self, "overwrites", []) if j > since and a < start + size and start < b]
             if any(a <= start and start + size <= b for (a, b) in later):
                 r = dict(r, dead=True)          # fully covered by one later session emission
             elif later:
